@@ -27,6 +27,8 @@ def run(ctx):
     for f in T.iter_cases(prep["cases"]):
         if f[0] == "E":
             _, cid, tid, g, impl, det, rt = f
+            if tid == "c":
+                continue
             tid = int(tid)
             crc = crc_of.get(tid)
             if crc not in ids:
